@@ -85,6 +85,9 @@ pub fn run_scenario(events: &[&str]) -> Obs {
         } else if *ev == "close" {
             tx.close_channel();
             o.closed = true;
+        } else if let Some(ms) = ev.strip_prefix('z') {
+            // real time passes (the router has no clock of its own: nothing may depend on it)
+            std::thread::sleep(std::time::Duration::from_millis(ms.parse().expect("z<ms>")));
         } else if ev.starts_with("poll") {
             // children that answered Pending become ready and fire the wakers they hold
             let ws: Vec<_> = std::mem::take(&mut log.lock().unwrap_or_else(|e| e.into_inner()).wakers);
@@ -296,6 +299,9 @@ pub fn run(cfg: &Cfg) {
         }
         // shutdown while a publisher has a standing backlog: the router finishes with what it has taken, it does not
         // go on draining the publisher
+        // subscribers that are slow, not failed: Pending for seconds of real time, one after the other (they take turns
+        // holding the same message up); nobody is evicted and nothing is lost
+        cases.push("ps +kr=PRRR;s=;f=;c= +kr=PPRR;s=;f=;c= +ti1,i2,p poll z2700 poll z2700 poll poll poll poll".to_string());
         for c in ["ps +k_ +tp,i9* poll close poll poll", "ps +k_ +ti1,p,i9* poll close poll poll", "ps +k_ +k_ +tp,i9* +tp poll close poll poll", "ps +kf=P +tp,i9* poll close poll poll poll"] { cases.push(c.to_string()); }
         // long bursts of messages that are all ready at once (more than any per-poll allowance a router might
         // have): everything available must be forwarded and flushed before the router sleeps on the publisher
@@ -319,7 +325,7 @@ pub fn run(cfg: &Cfg) {
         // run is not executed (and shows up as a divergence from the model, not as a property failure)
         if hangs >= 8 { out.stat("not_run_after_8_hangs"); out.case(c, "NOT-RUN-AFTER-HANGS", Ok(())); continue; }
         // every scenario runs in the guarded child: a poll that never returns is observed as a hang
-        match crate::childrun::guarded_timeout("ps", c.as_bytes(), std::time::Duration::from_secs(4)) {
+        match crate::childrun::guarded_timeout("ps", c.as_bytes(), std::time::Duration::from_millis(4000 + c.split(' ').filter_map(|t| t.strip_prefix('z')).filter_map(|m| m.parse::<u64>().ok()).sum::<u64>())) {
             crate::childrun::Outcome::Value(v) => {
                 let j: serde_json::Value = serde_json::from_str(&v).expect("child answer");
                 for k in j["stats"].as_array().unwrap() { out.stat(k.as_str().unwrap()); }
